@@ -65,9 +65,15 @@ def _lib():
     import dali.memory
     from dali.memory import location
     mods = {}
+    import_errors = {}
     for m in pkgutil.iter_modules(dali.memory.__path__):
         name = "dali.memory." + m.name
-        mods[name] = importlib.import_module(name)
+        try:
+            mods[name] = importlib.import_module(name)
+        except Exception as e:  # noqa - e.g. MemoryLocationOverlap / LockingNotSupported raised by a declaration
+            if name == "dali.memory.location":
+                raise
+            import_errors[name] = "%s: %s" % (type(e).__name__, e)
     cand = {}
     for modname in sorted(mods):
         for attr, v in sorted(vars(mods[modname]).items()):
@@ -103,7 +109,7 @@ def _lib():
             if hasattr(s, "locations") and hasattr(s, "bank") and str(s.__module__).startswith("dali.") \
                     and id(s.bank) not in bank_ids:
                 classes["?%s.%s" % (s.__module__, s.__name__)] = s
-    _LIB.update(location=location, mods=mods, banks=banks, classes=classes)
+    _LIB.update(location=location, mods=mods, banks=banks, classes=classes, import_errors=import_errors)
     return _LIB
 
 
@@ -386,6 +392,8 @@ def _check_layout(key):
     if row is None:
         return []
     if cls is None:
+        if _lib()["import_errors"].get(_row_home(row)):
+            return []       # reported once, as C11:layout:import-failed:<module>
         return [("C11:layout:" + row["cls"], "table row %s (%s, bank %d, %#04x..%#04x) has no value class in the "
                  "library" % (key, row["module"], row["bank"], row["first"], row["last"]))]
     L = _lib()
@@ -415,13 +423,27 @@ def _check_layout(key):
     return out
 
 
+def _row_home(row):
+    """Module whose import creates the row's class (the bank's module for LastAddress / LockByte)."""
+    b = RM.BANKS.get(row["bankobj"])
+    return b["module"] if b else row["module"]
+
+
+def _check_import(module):
+    err = _lib()["import_errors"].get(module)
+    if err:
+        return [("C11:layout:import-failed:" + module.rsplit(".", 1)[-1],
+                 "importing %s fails, its part of the memory map cannot be declared: %s" % (module, err))]
+    return []
+
+
 def _check_bank(bk):
     L = _lib()
     out = []
     ent = L["banks"].get(bk)
     tab = RM.BANKS.get(bk)
     if ent is None:
-        if tab is not None:
+        if tab is not None and not L["import_errors"].get(tab["module"]):
             out.append(("C11:layout:" + bk, "bank object %s of the table does not exist in %s" % (bk, tab["module"])))
         return out
     bank = ent[0]
@@ -522,6 +544,8 @@ def run_case(case):
         return _check_bank(case["bank"])
     if op == "image":
         return _check_image(case["bank"], list(case["image"]))
+    if op == "import":
+        return _check_import(case["module"])
     if op == "total":
         return _check_total(case["key"], bytes(case["raw"]))
     raise ValueError(op)
@@ -597,7 +621,7 @@ def _shard(arg):
         cls, row = _resolve(key)
         w = row["width"]
         _enum_decode(res, key, (v.to_bytes(w, "big") for v in range(lo, hi, stride)))
-        if lo == 0:
+        if lo == 0 and stride == 1:
             res.label("kind:" + row["kind"] + ("-signed" if row["signed"] else ""))
             res.sample({"op": "decode", "key": key, "raw": list((0xFFFE & ((1 << 8 * w) - 1)).to_bytes(w, "big"))},
                        cls="enum-w%d" % w)
@@ -689,6 +713,10 @@ def _shard(arg):
             res.nontrivial()
             for sig, msg in _check_bank(bk):
                 res.violation(sig, {"op": "bank", "bank": bk}, msg)
+        for module in sorted(L["import_errors"]):
+            res.count()
+            for sig, msg in _check_import(module):
+                res.violation(sig, {"op": "import", "module": module}, msg)
         for key in sorted(_synthetic()["rows"]):
             res.count()
             for sig, msg in _check_layout(key):
